@@ -156,4 +156,8 @@ def check(ctx):
     import delegation
     for name, path in R.CHANNELS.items():
         delegation.thin(ctx, "R07.2", f"{path} as {R.T_COMMON}::cancel_all_streams", "cancel_all_streams", "the channel-level cancel is the streams manager's sweep over every live stream")
+    # R07.6 'exactly the targeted streams': cancel-by-name ends the stream the executor was registered under -- every executor is registered under the id of the stream
+    # it consumes (shared with C12 R12.10)
+    __import__("importlib").import_module("props.C12").check_executor_stream_pairing(ctx, "R07.6")
+    ctx.floor("R07.6", 10)
     ctx.floor("R07.1", 4); ctx.floor("R07.2", 4); ctx.floor("R07.3", 8); ctx.floor("R07.4", 5); ctx.floor("R07.5", 12)
